@@ -73,6 +73,13 @@ def run(ctx):
                 for entry in ("universal", "cached"):
                     extra.append(dict(entry=entry, limit=7000, nlp=nlp, fuzzy=False, thr=0, ponly=False, pboost=False, allplat=True, plats=[],
                                       nocross=False, boost=True, boostvar=bv, query="raw", raw=raw, corpus="mix", cap=cap))
+    # a boosted word that nearly every command contains (an IDF floor must not look at the boost)
+    for corpus in ("tie", "bigtie", "single"):
+        for raw in ("frobnicate widget", "frobnicate", "widget zqtie", "frobnicate alpha"):
+            for nlp in (False, True):
+                for bv in (0, 2, 3):     # (factors below 1 are demotions, not boosts: C03 checks their arithmetic)
+                    extra.append(dict(entry="universal", limit=7000, nlp=nlp, fuzzy=False, thr=0, ponly=False, pboost=False, allplat=True, plats=[],
+                                      nocross=False, boost=True, boostvar=bv, query="raw", raw=raw, corpus=corpus))
     # boosts on real words of the shipped database
     tr, info, ok, rej = engine.run_cases(ctx, scen + extra, ["C13"])
     for x in rej:
